@@ -498,11 +498,17 @@ func (t *TOTP) validate(r *http.Request) (User, string, error) {
 		if oldCode == input {
 			return user, t.Localizef(r.Context(), authboss.TxtRepeated2FACode), nil
 		}
-		oneTime.PutTOTPLastCode(input)
 	}
 
 	if !totp.Validate(input, secret) {
 		return user, t.Localizef(r.Context(), authboss.TxtInvalid2FACode), nil
+	}
+
+	// Only a code that verified is remembered: a rejected submission must not
+	// displace the last accepted code, it would make that code usable again
+	// (the failure handlers of other modules save this user).
+	if oneTime, ok := user.(UserOneTime); ok {
+		oneTime.PutTOTPLastCode(input)
 	}
 
 	return user, t.Localizef(r.Context(), authboss.TxtSuccess), nil
